@@ -91,10 +91,14 @@ Definition calc_position (pr : proto) (b : bytes) : res N :=
   | _ => Ok pos_unknown
   end.
 
-(* Header.Timestamp / uint32(clockRate/1000) *)
+(* int64(uint64(Header.Timestamp) * 1000 / uint64(clockRate))  -- after the C07
+   fix (lal e6bc8fd); before it: Header.Timestamp / uint32(clockRate/1000),
+   which used 44 for 44100 Hz (DESIGN F-24, Properties/C07.v c07_ts_drift_pinned_refuted).
+   The clock rate is a non-negative int here, timestamps are below 2^32, so the
+   uint64 product does not wrap. *)
+Definition rtp_ms (rate ts : N) : N := ts * 1000 / rate.
 Definition out_ts (site : N) (rate ts : N) : res N :=
-  let d := u32 (rate / 1000) in
-  if d =? 0 then Panic site else Ok (ts / d).
+  if rate =? 0 then Panic site else Ok (rtp_ms rate ts).
 
 (* AVCC framing of one NAL: 4-byte big-endian length (uint32 truncation) *)
 Definition avcc (nal : bytes) : bytes := be_put 4 (u32 (lenN nal)) ++ nal.
